@@ -126,6 +126,7 @@ def corpus():
               "text one\n\n@comment{}\n\ntext two\n\n@a{k, f = {v}}\n\n@comment{ }\n\ntext three",
               "@a{k1, f = {}}\n@comment{}\n@preamble{}\n@string{e = {}}\n@a{k2,}",
               "@Article {K, F = {v}}\n@STRING {k = {w}}\n@a{k, f = k}",
+              "text a\n\n\n\n\ntext b\n\n\n\n\n\n\ntext c\n\n@a{k, f = {v}}\n\nlast\n\n\n\nwords",
               "@a{Andre\u03012001, t = {x}}\n\n@a{Andr\u00e92001, t = {y}}\n\n@string{e\u0301 = {1}}\n\n@string{\u00e9 = {2}}\n\n@a{\ufb01, t = {z}}\n\n@a{fi, t = {w}}"):
         for f in (base, {"indent": "", "col": "auto", "sep": "", "tc": True}):
             out.append(dict(f, t=t, wfsrc=True))
